@@ -848,7 +848,14 @@ class TokenizerCore:
             if self._scan_comment(word):
                 return
             if prev_space or single_token or not char:
-                self._advance(size - 1)
+                skipped = sql[self._current - 1 : self._current + size - 2]
+                if "\n" in skipped or "\r" in skipped:
+                    # a multi-word keyword that spans lines: step through it so that line
+                    # breaks inside it are counted like anywhere else
+                    for _ in range(size - 1):
+                        self._advance()
+                else:
+                    self._advance(size - 1)
                 word = word.upper()
                 self._add(self.keywords[word], text=word)
                 return
